@@ -8,6 +8,9 @@
        ty  : i<bytes> | z | a <n> <ty> | s <ty> | p <ty>
      -> OK <aborted:0|1> <event>*   with events P:A P:S P:U P:M<n> X:<code> L:<addr>:<w> S:<addr>:<w>
         or CRASH<site> / FUEL
+   XF <fw><fz> <mem> <stmt>*   the same on Model/IndexCheckFixed.v execf (fw, fz in {0,1}: the fix
+                               candidates C10-1 / C10-2 applied)
+   KF <fw><fz> <bits> <ty>     -> known_class_f
    L <index> <ty>      -> lit_index_rejected                       0|1
    T <bits> <s|u>      -> idx_ty_accepted                          0|1
    D <m|->*            -> assign_discrims:  OK <d>* ovf=<0|1>
@@ -19,6 +22,7 @@ open BinNums
 open Conv
 open Convz
 open IndexCheck
+open IndexCheckFixed
 open IndexCheckSpec
 
 let z = z_of_hex
@@ -114,6 +118,20 @@ let handle (line : string) : string =
        String.concat " " ("OK" :: (if ab then "1" else "0") :: List.map show_ev tr)
      | Util.Crash s -> Printf.sprintf "CRASH%d" (int_of_n s)
      | Util.OutOfFuel -> "FUEL")
+  | "XF" :: fl :: mem :: toks ->
+    let fw = fl.[0] = '1' and fz = fl.[1] = '1' in
+    let rd = mem_of mem in
+    let p = p_stmts (new stream toks) in
+    (match execf fw fz rd rd p with
+     | Util.Ok (tr, ab) ->
+       String.concat " " ("OK" :: (if ab then "1" else "0") :: List.map show_ev tr)
+     | Util.Crash s -> Printf.sprintf "CRASH%d" (int_of_n s)
+     | Util.OutOfFuel -> "FUEL")
+  | "KF" :: fl :: b :: toks ->
+    let fw = fl.[0] = '1' and fz = fl.[1] = '1' in
+    let t = p_ty (new stream toks) in
+    (match known_class_f fw fz { ibits = z b; isigned = false } t with
+     | Some KWideIndex -> "wide" | Some KZeroSizedElem -> "zst" | None -> "-")
   | "L" :: idx :: toks ->
     let t = p_ty (new stream toks) in
     if lit_index_rejected t (z idx) then "1" else "0"
